@@ -948,6 +948,13 @@ for ko, kt, kv in ((NONE, "None", ""), (some(v("k")), "(Some k)", " (k : list Q)
           script=MACH_SCRIPT, imports="Base.QR Model.Registry", cases=[dict(self=cself, lhs="@cached m (si, %s)" % kt, vars="(si : St m)" + kv)], rhs="{ret}")
 entry("C20", "cache_from", file=F + "cache.rs", impl=r"impl<T,\s*U>\s+From<T>\s+for\s+Cache<T,\s*U>", fn="from", params={"inner": mach("(minit m c)")}, header=MACH_HDR, prims=MACH,
       script=MACH_SCRIPT, imports="Base.QR Model.Registry", cases=[dict(self=("unit",), lhs="minit (m_cache m) c", vars="")], rhs="({ret.state.inner}, {ret.state.cached})")
+# UnitSystem<T> (the macro-generated Filter impl, one body for all five unit systems) over an arbitrary inner machine
+USELF = st(state=st(inner=mach("si")))
+entry("C20", "unit_filter_macro", file=F + "unit_system.rs", impl=r"impl<T,\s*U,\s*V>\s+Filter<\$t<V,\s*U>>\s+for\s+UnitSystem<T>", fn="filter", params={"input": ("tagged", v("i"))}, header=MACH_HDR, prims=MACH,
+      script=MACH_SCRIPT, imports="Base.QR Model.Registry", cases=[dict(self=USELF, lhs="mstep (m_unit m) c si i", vars="(si : St m) (i : list Q)")],
+      rhs="", render=lambda sym, s_, r_, c_: "Some (%s, %s)" % (s_[1]["state"][1]["inner"][2], _R.coq_V(r_[1]) if r_[0] == "tagged" else "?"))
+entry("C20", "unit_reset", file=F + "unit_system.rs", impl=r"impl<T>\s+Reset\s+for\s+UnitSystem<T>", fn="reset", params={}, header=MACH_HDR, prims=MACH,
+      script=MACH_SCRIPT, imports="Base.QR Model.Registry", cases=[dict(self=USELF, lhs="mreset (m_unit m) c si", vars="(si : St m)")], rhs="{ret.state.inner}")
 entry("C12", "reset_threshold", file=F + "classify/threshold.rs", impl=r"impl<T,\s*U>\s+Reset\s+for\s+Threshold<T,\s*U>", fn="reset", params={},
       cases=[dict(self=st(config=st(threshold=v("thr"), outputs=OUTS2)), lhs="(thr, o0, o1)", vars="thr o0 o1")], rhs="({ret.config.threshold}, {ret.config.outputs.0}, {ret.config.outputs.1})")
 
